@@ -589,7 +589,13 @@ def shuffle_mask_rule(chk, rule, lib, name_re):
                 elif i.mem < 0 and re.match(r"^V?(MOVDQ[AU]|MOVAPS|MOVUPS|MOVDQA|MOVDQU)", op) and len(srcs) == 1:
                     st[d] = set(st.get(srcs[0], {("other", i.addr)}))
                 else:
-                    st[d] = {("other", i.addr)}
+                    # any function of constants is a constant (vinserti128 of two mask halves, vpermq of a mask, ...)
+                    gp = [u for u in i.reg_uses_nomem() if u in PARENT]
+                    memok = i.mem < 0 or not i.reads_mem_operand() or const_mem(i)
+                    if srcs and not gp and memok and all(all(c[0] == "const" for c in st.get(x, {("other", None)})) for x in srcs) and d not in srcs[len(srcs):]:
+                        st[d] = {("const", i.addr)}
+                    else:
+                        st[d] = {("other", i.addr)}
             for s_ in f.succ.get(b, []):
                 old = state_in.get(s_)
                 if old is None:
